@@ -493,8 +493,12 @@ impl<R, M> FluentBundle<R, M> {
         M: MemoizerKind,
     {
         let mut scope = Scope::new(self, args, Some(errors));
-        let value = pattern.resolve(&mut scope);
-        value.into_string(&scope)
+        // the resolved pattern is text; the value formatter is for interpolated values only,
+        // as in `write_pattern`
+        match pattern.resolve(&mut scope) {
+            FluentValue::String(text) => text,
+            value => value.into_string(&scope),
+        }
     }
 
     /// Makes the provided rust function available to messages with the name `id`. See
